@@ -288,7 +288,10 @@ C01_CODES = [("4-alpha-beta", "4-alpha-beta"), ("4-alpha-beta", "4-alpha-betb"),
              ("4-\u212bngstrom-a", "4-\u00c5ngstrom-a"),
              # the nameplate is a string: another spelling of the same number is another code (and another nameplate)
              ("4-alpha-beta", "04-alpha-beta"), ("4-alpha-beta", "004-alpha-beta"), ("04-alpha-beta", "04-alpha-beta"),
-             ("4-alpha-beta", "\u0664-alpha-beta"), ("4-alpha-beta", "\uff14-alpha-beta")]
+             ("4-alpha-beta", "\u0664-alpha-beta"), ("4-alpha-beta", "\uff14-alpha-beta"),
+             # white space that is not a blank is part of the code like any other character (a code pasted with its line end)
+             ("4-alpha-beta", "4-alpha-beta\n"), ("4-alpha-beta\t", "4-alpha-beta"), ("4-alpha-beta", "4-alpha-beta\r\n"),
+             ("4-alpha-beta", "4-alpha-beta\u00a0"), ("4-alpha-beta\n", "4-alpha-beta\n"), ("4-alpha\u3000-beta", "4-alpha-beta")]
 C01_PURPOSES = [("wormhole:test", 32), ("other", 32), ("wormhole:test", 16), ("\u00fcn\u00efcode", 64), ("", 1),
                 ("\ufb01le", 32), ("file", 32),
                 # purposes that are not in NFC form as passed (decomposed accent, ANGSTROM SIGN): both APIs must treat them alike
